@@ -510,7 +510,7 @@ class Expected(object):
 
 # ----------------------------------------------------------------------------- directed builder
 def build_file(rng, chans, nseg=1, nchunks=(1,), endian='<', inter=False, root_props=None, group_props=None,
-               values_fn=None, continuation='mixed'):
+               values_fn=None, continuation='mixed', parents='first'):
     """chans: [(group, name, type, n_per_chunk, props)] -> segs.
        Segment 0 lists root, groups and all channels in full; later segments continue with
        'same' listings, no metadata, or restated full indexes (continuation: mixed/same/none/full)."""
@@ -531,25 +531,30 @@ def build_file(rng, chans, nseg=1, nchunks=(1,), endian='<', inter=False, root_p
             s.has_meta, s.new_obj_list = False, False
         else:
             s.new_obj_list = (mode == 'full')
-            if si == 0:
-                s.listing.append(('/', 'nodata', None))
+            parent_listing = []
+            if si == 0 and parents != 'later':
+                parent_listing.append(('/', 'nodata', None))
                 if root_props:
                     s.props['/'] = list(root_props)
                 for g in groups:
-                    s.listing.append((qpath(g), 'nodata', None))
+                    parent_listing.append((qpath(g), 'nodata', None))
                     if group_props and g in group_props:
                         s.props[qpath(g)] = list(group_props[g])
+            chan_listing = []
             for g, name, t, n, props in chans:
                 p = qpath(g, name)
-                s.listing.append((p, 'full' if mode == 'full' else 'same', index[p]))
+                chan_listing.append((p, 'full' if mode == 'full' else 'same', index[p]))
                 if si == 0 and props:
                     s.props[p] = list(props)
+            s.listing = (chan_listing + parent_listing) if parents == 'last' else (parent_listing + chan_listing)
         act = []
         if si == 0 or mode == 'full':
-            if si == 0:
-                act.append(('/', False, None))
-                act += [(qpath(g), False, None) for g in groups]
-            act += [(qpath(g, name), True, index[qpath(g, name)]) for g, name, t, n, props in chans]
+            pact = []
+            if si == 0 and parents != 'later':
+                pact.append(('/', False, None))
+                pact += [(qpath(g), False, None) for g in groups]
+            cact = [(qpath(g, name), True, index[qpath(g, name)]) for g, name, t, n, props in chans]
+            act = (cact + pact) if parents == 'last' else (pact + cact)
         else:
             act = list(segs[-1].active)
         s.active = act
@@ -568,5 +573,19 @@ def build_file(rng, chans, nseg=1, nchunks=(1,), endian='<', inter=False, root_p
                     ch[p] = rand_values(rng, t, n)
             s.chunks.append(ch)
         s.raw_flag = True
+        segs.append(s)
+    if parents == 'later':
+        # root and group objects (with their properties) first appear in a trailing metadata-only segment
+        s = Seg()
+        s.endian = segs[-1].endian
+        s.new_obj_list = False
+        s.listing = [('/', 'nodata', None)] + [(qpath(g), 'nodata', None) for g in groups]
+        if root_props:
+            s.props['/'] = list(root_props)
+        for g in groups:
+            if group_props and g in group_props:
+                s.props[qpath(g)] = list(group_props[g])
+        s.active = list(segs[-1].active) + [(p, False, None) for p, _, _ in s.listing]
+        s.raw_flag = False
         segs.append(s)
     return segs
